@@ -149,6 +149,9 @@ type worldOpts struct {
 	srcNum       int
 	tgtNum       int
 	retryTimes   int
+	// consumeGate, when set, delays the consumer of every output channel: like the server, which fetches a target
+	// channel (GetMsgChan) some time after packs started to arrive, it only asks for the channel once the gate is closed.
+	consumeGate chan struct{}
 }
 
 func newWorld(o worldOpts) *world {
@@ -221,6 +224,13 @@ func newWorld(o worldOpts) *world {
 				w.chans[name] = true
 				w.mu.Unlock()
 				w.outCnt.Add(1)
+				if o.consumeGate != nil {
+					select {
+					case <-w.ctx.Done():
+						return
+					case <-o.consumeGate:
+					}
+				}
 				mc := mgr.GetMsgChan(name)
 				w.wg.Add(1)
 				go func() {
